@@ -1,8 +1,8 @@
 """C10 — Concurrent updates of one tile never lose a contribution."""
 PROPERTY = "C10"
 LEVEL = "other"
-CONTRACT_MODULES = ["contracts.specfuns", "contracts.lemmas_desc", "contracts.pyramid", "contracts.image", "contracts.merge", "contracts.pyramidio"]
-FUNCTIONS = ["toasty.pyramid.PyramidIO.update_image"]
+CONTRACT_MODULES = ["contracts.specfuns", "contracts.lemmas_desc", "contracts.pyramid", "contracts.image", "contracts.merge", "contracts.pyramidio", "contracts.pioinit"]
+FUNCTIONS = ["toasty.pyramid.PyramidIO.update_image", "toasty.pyramid.PyramidIO.__init__"]
 LEMMAS = []
 SLOW = ()
 TRUSTED_BASE = ["pyvc VC generator; z3/cvc5",
